@@ -58,7 +58,7 @@ impl<A: AcceptableMasterList, C: Clock, F: Filter, R: Rng, S: PtpInstanceStateMu
                 let time_properties_ds = &mut state.time_properties_ds;
                 let path_trace_ds = &mut state.path_trace_ds;
 
-                current_ds.steps_removed = announce.steps_removed + 1;
+                current_ds.steps_removed = announce.steps_removed.saturating_add(1);
 
                 parent_ds.parent_port_identity = announce.header.source_port_identity;
                 parent_ds.grandmaster_identity = announce.grandmaster_identity;
